@@ -99,9 +99,9 @@ CUSTOM_NAMES = {
 }
 
 
-def catalogue_cases(ids: IdGen, tier: str):
-    """every catalogue shape; quick: two reprs per shape (rotating), thorough: all reprs"""
-    rng = random.Random(12345)
+def catalogue_cases(ids: IdGen, tier: str, seed: int = 1):
+    """every catalogue shape; quick: three reprs per shape (rotating with the seed), thorough: all reprs"""
+    rng = random.Random(12345 + (seed if tier == "quick" else 0))
     cases = []
     shape_names = list(shapes.SHAPES)
     for si, sname in enumerate(shape_names):
@@ -109,7 +109,8 @@ def catalogue_cases(ids: IdGen, tier: str):
         if not admissible:
             continue
         if tier == "quick":
-            picks = [admissible[si % len(admissible)], admissible[(si * 5 + 3) % len(admissible)]]
+            picks = [admissible[(si + seed) % len(admissible)], admissible[(si * 5 + 3 + seed) % len(admissible)],
+                     admissible[(si * 7 + 1 + 2 * seed) % len(admissible)]]
             picks = list(dict.fromkeys(picks))
         else:
             picks = admissible
@@ -417,7 +418,7 @@ def run_corpus(tier: str, seed: int):
     """-> list of (crate name, no_std?, cases); ids are stable for the fixed parts"""
     parts = []
     fixed = []
-    fixed += catalogue_cases(IdGen(1), tier)
+    fixed += catalogue_cases(IdGen(1), tier, seed)
     fixed += c09_cases(IdGen(10001), tier)
     fixed += c18_cases(IdGen(30001), tier)
     fixed += c16_cases(IdGen(40001), tier)
